@@ -53,6 +53,7 @@ def run(prog, chk):
     work_buffer_rule(prog, chk)
     memreadn_table(prog, chk)
     reencode_table(prog, chk)
+    element_bookkeeping_table(prog, chk)
     refused_mutation(prog, chk)
     _run(prog, chk)
 
@@ -643,3 +644,53 @@ def reencode_table(prog, chk):
             ok = q.ret != 0 and not into_own and buf == (Ptr("OLDBUF") if owned else 0) and nested == Ptr("NESTED") and Ptr("OLDBUF") not in frees and not any(e[0] == "free list" for e in events)
             what = "expected an error and the TLV as it was (its buffer, its list); source: status %s, buffer now %s, list %s, events %s" % (hex(q.ret) if isinstance(q.ret, int) else q.ret, buf, nested, events)
         chk.ob("C09.reencode", inst, ok, what, loc=fn.loc(), fn=fn, nontrivial=bool(owned))
+
+
+def element_bookkeeping_table(prog, chk):
+    """Element codec: an edited parent's recorded payload length is the sum of its children's encodings - removeElement subtracts what it
+    takes out, so whatever puts an element in (appendElement, setElement adding or replacing) adds exactly its encoding, once.  Each
+    editor is evaluated on a parent with a recorded length of 7 and a child of 2 + 3 octets."""
+    from ksirules.interp import TOP, Interp, Ptr, inline_model, list_overrides, succeed_model
+    chk.rule("C09.elembook", "element codec: append / set / remove keep the parent's payload length = sum of the children's encodings (decision table)", floor=4)
+    for name, scenario, want in (("KSI_TlvElement_appendElement", "append", 12), ("KSI_TlvElement_setElement", "set: tag not present yet", 12),
+                                 ("KSI_TlvElement_setElement", "set: replaces a child of 2 + 1 octets", 9), ("KSI_TlvElement_removeElement", "remove", 2)):
+        fn = prog.fn(name, "tlv_element.c")
+        pp = fn.params[0]["n"]
+        present = scenario.startswith("set: replaces") or scenario == "remove"
+        lists = {"SUB": [Ptr("OLD")] if present else [], "HITS": [Ptr("OLD")] if present else []}
+        length, element_at = list_overrides(lists)
+
+        def foldl(I, p, node, args):
+            # the filter context is a local struct: its result list becomes HITS
+            a1 = strip(node["a"][1])
+            key = lvalue_key(a1["e"], I.fn) if isinstance(a1, dict) and a1.get("k") == "un" else None
+            if key:
+                I.write(p, key + ".result", Ptr("HITS"))
+            return 0
+
+        def find(I, p, node, args):
+            I.write(p, lvalue_key(strip(node["a"][2])["e"], I.fn), 1)
+            I.write(p, lvalue_key(strip(node["a"][3])["e"], I.fn), 0)
+            return 0
+        ov = {"convertToNested": lambda I, p, n, a: 0, "KSI_TlvElementList_append": lambda I, p, n, a: 0, "KSI_TlvElement_ref": lambda I, p, n, a: a[0],
+              "KSI_TlvElementList_foldl": foldl, "KSI_TlvElementList_length": length, "KSI_TlvElementList_elementAt": element_at, "KSI_TlvElementList_find": find,
+              "KSI_TlvElementList_replaceAt": lambda I, p, n, a: 0, "KSI_TlvElementList_remove": lambda I, p, n, a: 0, "KSI_TlvElementList_free": lambda I, p, n, a: TOP,
+              "KSI_TlvElement_free": lambda I, p, n, a: TOP}
+        inputs = {pp: Ptr("P"), "P->subList": Ptr("SUB"), "P->ftlv.dat_len": 7, "P->ftlv.hdr_len": 2, "C->ftlv.hdr_len": 2, "C->ftlv.dat_len": 3, "C->ftlv.tag": 5,
+                  "OLD->ftlv.hdr_len": 2, "OLD->ftlv.dat_len": 1 if scenario.startswith("set") else 3, "OLD->ftlv.tag": 5}
+        if name == "KSI_TlvElement_removeElement":
+            inputs[fn.params[1]["n"]] = 5
+            inputs[fn.params[2]["n"]] = 0
+        else:
+            inputs[fn.params[1]["n"]] = Ptr("C")
+        I = Interp(fn, inputs=inputs, call_model=inline_model(prog, {"KSI_TlvElement_appendElement"} if name.endswith("setElement") else set(), fallback=succeed_model(prog, ov)),
+                   on_unknown="stop", prog=prog)
+        paths = I.run()
+        chk.paths += len(paths)
+        inst = "element %s" % scenario
+        if len(paths) != 1 or paths[0].undetermined or paths[0].ret is TOP:
+            raise AnalysisBroken("%s: evaluation not determined for %s: %s" % (name, inst, [q.undetermined[:1] for q in paths]))
+        q = paths[0]
+        got = I.read(q, "P->ftlv.dat_len")
+        chk.ob("C09.elembook", inst, q.ret == 0 and got == want, "parent's recorded payload length 7, child 2 + 3 octets: expected %d afterwards, source gives %s (status %s)" % (want, got, q.ret),
+               loc=fn.loc(), fn=fn)
